@@ -120,6 +120,21 @@ Example c22_init_wf :
   wfb (init_st 2 4 4) = true /\ wfb (init_st 3 2 3) = true.
 Proof. vm_compute. repeat split. Qed.
 
+(** ... and for every geometry up to 4 ranks x 8 bank groups x 8 banks (a finite domain, by
+    computation; covers every preset and every geometry the generator draws). *)
+Lemma c22_init_wf_bounded : forall nr nbg nb,
+  In nr [1; 2; 3; 4] -> In nbg [1; 2; 3; 4; 5; 6; 7; 8] -> In nb [1; 2; 3; 4; 5; 6; 7; 8] ->
+  wf (init_st nr nbg nb) /\ all_closed (init_st nr nbg nb) /\ no_hist (init_st nr nbg nb).
+Proof.
+  intros nr nbg nb Hr Hg Hb. split; [|split; [apply init_all_closed|apply init_no_hist]].
+  apply wfb_sound.
+  assert (forallb (fun r => forallb (fun g => forallb (fun b => wfb (init_st r g b))
+            [1; 2; 3; 4; 5; 6; 7; 8]) [1; 2; 3; 4; 5; 6; 7; 8]) [1; 2; 3; 4] = true) as A by (vm_compute; reflexivity).
+  rewrite forallb_forall in A. specialize (A nr Hr).
+  rewrite forallb_forall in A. specialize (A nbg Hg).
+  rewrite forallb_forall in A. exact (A nb Hb).
+Qed.
+
 (** Non-vacuity: a DDR4-like table on a 1x2x2 device, an oracle that forces a row conflict:
     the model issues ACT, RD, PRE, ACT, RD, RD, RD with the expected gaps and all hypotheses hold. *)
 Definition ex_T : timing :=
